@@ -56,9 +56,12 @@ def nontrivial(c, o):
 def run(tier, seed, replay=None):
     chk = core.Check("C03", tier, seed)
     proof = core.proof_step("C03", thorough=(tier == "thorough"))
-    cases = [replay["replay"]["case"]] if replay else gen(seed, tier)
-    outs, corr, orac = flow.differential(chk, "synth", cases, sy.to_coq, sy.IMPORTS, run_fn="run_c03", describe=sy.describe,
-                                          component="create_node / deciders", kind=lambda c: c["decider"][0], chunk=40)
+    from harness.props import c06
+    ph, rep_replay = c06.variation_phase(chk, "C03", "run_c03r", (), replay, seed, tier, "depth of programs returned by the representations")
+    cases = [] if rep_replay else [replay["replay"]["case"]] if replay else gen(seed, tier)
+    outs, corr, orac = (None, [], []) if rep_replay else flow.differential(
+        chk, "synth", cases, sy.to_coq, sy.IMPORTS, run_fn="run_c03", describe=sy.describe,
+        component="create_node / deciders", kind=lambda c: c["decider"][0], chunk=40)
     if replay and outs:
         print("replayed:", sy.describe(cases[0], outs[0]))
         print("correspondence", "FAILS" if corr else "ok", "| contract", "FAILS" if orac else "holds")
@@ -81,7 +84,8 @@ def run(tier, seed, replay=None):
             for t in cl["fields"]:
                 forms[t[0]] = forms.get(t[0], 0) + 1
     cov = {
-        "evaluations": len(cases),
+        "representation_operations": c06.variation_cov(ph),
+        "evaluations": len(cases) + (len(ph["ecs"]) if ph else 0),
         "distinct_nontrivial": flow.distinct_nontrivial(cases, outs or [], nontrivial) if outs else 0,
         "traces_validated_against_impl": len(cases),
         "correspondence_mismatches": len(corr), "oracle_failures": len(orac),
